@@ -12,7 +12,7 @@ A14Plan plan;
 bool done;
 const char *fault_names[] = {"allocation_failure", nullptr};
 const char *probe_names[] = {"null_returned", "huge_request", "bad_alloc_thrown", "vector_reallocated", "zero_size_request", "length_error_thrown",
-                             "free_with_live_neighbours", "alignment_4096", nullptr};
+                             "free_with_live_neighbours", "alignment_4096", "alignment_64KiB_to_16MiB", nullptr};
 const size_t SIZES[] = {0, 1, 7, 8, 63, 64, 65, 4095, 4096, 4097, 1u << 20, (size_t)-1 / 2, (size_t)-1 - 63,
                         (4u << 20) + 100, 5u << 20, (8u << 20) + 1, 20u << 20};
 
@@ -41,6 +41,12 @@ void do_plan(int tier)
       op.slot = (int)sim_plan(A14_SLOTS);
       op.size_idx = (int)sim_plan(sizeof SIZES / sizeof SIZES[0]);
       op.align_log2 = (int)sim_plan(13);
+      if (sim_plan(16) == 0) {
+        // alignments far above a page: 64 KiB, 256 KiB, 2 MiB, 16 MiB
+        static const int big_align[] = {16, 18, 21, 24};
+        op.align_log2 = big_align[sim_plan(4)];
+        sim_probe(8);  // alignment_64KiB_to_16MiB
+      }
       if (big_dance) {
         // blocks of several MiB allocated and released next to small ones, few slots: the allocator's
         // large-block paths (mmap threshold, trimming, page-granular releases) get exercised
